@@ -323,7 +323,7 @@ def main():
         seed = 1
     cfg = CONFIG[pid]
     t0 = time.time()
-    work = os.path.join(ROOT, ".work", pid)
+    work = os.path.join(ROOT, ".work", pid + "-" + tier)
     shutil.rmtree(work, ignore_errors=True)
     os.makedirs(work)
     os.makedirs(os.path.join(ROOT, "replays"), exist_ok=True)
